@@ -54,18 +54,7 @@ func runC09(c *core.Ctx) {
 			"the wrapped reader can be read without validating the block at the current offset: damaged old data flows into the output unnoticed").Path = c.P.PathStrings(p)
 		for _, v := range allInstrs(read, isVB) {
 			vc := v.(*ssa.Call)
-			skipNil := func(b, s *ssa.BasicBlock) bool {
-				ifi, ok := b.Instrs[len(b.Instrs)-1].(*ssa.If)
-				if !ok {
-					return false
-				}
-				bo, ok := ifi.Cond.(*ssa.BinOp)
-				if !ok || !core.IsNilConst(bo.Y) || !loadsStoredResult(bo.X, vc) {
-					return false
-				}
-				return (bo.Op == token.EQL && s == b.Succs[0]) || (bo.Op == token.NEQ && s == b.Succs[1])
-			}
-			p2 := core.FindPathSkipping(read, v, isInstr(in), isVB, skipNil)
+			p2 := ungatedPath(read, vc, in, isVB)
 			c.Check(p2 == nil, "R09.1", core.FnName(read), "validateBlock's verdict gates the inner Read", core.InstrPos(v),
 				"the inner Read is reachable only through the nil outcome of validateBlock",
 				"the inner Read is reachable although validateBlock's result was not found nil").Path = c.P.PathStrings(p2)
